@@ -5,7 +5,9 @@ counterexample against the REAL environment before reporting it, writes evidence
 
 exit 0: no violation on anything explored (known findings are printed as KNOWN-FINDING lines)
 exit 1: VIOLATION property=<id> replay=<path>   (solver counterexample that reproduces on the real environment)
-exit 2: harness error / counterexample that does not reproduce (the model environment is too permissive)
+exit 2: harness error (a cell that could not be run at all, a reachability twin that came back CONFIRMED)
+A model counterexample that does not reproduce on the real environment is reported as INCONCLUSIVE (status UNCONFIRMED,
+listed in the evidence), never as a violation and never as a non-zero exit.
 """
 import concurrent.futures
 import hashlib
@@ -159,9 +161,24 @@ def main(argv):
         results = list(ex.map(lambda c: run_cell(c, tier, seed, digest), cells))
     violations, errors, known_hit = [], [], []
     discharged = 0
+    unconfirmed = []
     for cell, r in zip(cells, results):
         st = r.get('status')
-        if st == 'ERROR' or (st == 'REFUTED' and r['expect'] == 'CONFIRMED' and r.get('replay') != 'reproduced'):
+        if st == 'REFUTED' and r['expect'] == 'CONFIRMED' and r.get('replay') != 'reproduced':
+            # A model counterexample that the real environment does not confirm is NOT a violation: either the model
+            # environment is more permissive than reality for this code (a stub gap, an API it does not know) or the real
+            # values it would need differ from the model's.  It is reported, not counted as discharged, and never raised
+            # as an alarm.
+            r['status'] = 'UNCONFIRMED'
+            unconfirmed.append(r)
+            print('INCONCLUSIVE cell=%s status=UNCONFIRMED (model counterexample not reproduced on the real environment: %s)'
+                  % (r['cell'], (r.get('cex_message') or '')[:200]))
+        elif st == 'ERROR' and r.get('error', '').startswith('sample '):
+            # a sample input on which only the MODEL world fails: same reasoning
+            r['status'] = 'UNCONFIRMED'
+            unconfirmed.append(r)
+            print('INCONCLUSIVE cell=%s status=UNCONFIRMED (%s)' % (r['cell'], r['error'][:300]))
+        elif st == 'ERROR':
             errors.append(r)
         elif st == 'REFUTED' and r['expect'] == 'CONFIRMED':
             kf = None
@@ -221,6 +238,7 @@ def main(argv):
             obligations=len(cells),
             discharged=discharged,
             cells_not_exhausted=[r['cell'] for r in results if r.get('status') == 'UNKNOWN'],
+            unconfirmed_model_counterexamples=[dict(cell=r['cell'], message=(r.get('cex_message') or r.get('error') or '')[:300]) for r in unconfirmed],
             solver_s=round(sum(r.get('solver_s') or 0 for r in results), 2),
             functions_encoded=check['functions'],
             explanation='states = execution paths of the real functions explored symbolically by CrossHair; transitions = '
